@@ -254,6 +254,11 @@ def build_source(src, workdir):
                                        special=src.get("special", False),
                                        run_id="verif-run-%d" % src["seed"])
         n = src["n"]
+        if src.get("neg_uint"):
+            # a feature the writer stores as uint32 holding negative values
+            # (as the int16 fl2_max of tdms measurements does)
+            spec["features"]["fl2_max"] = np.array(
+                [(-17 if i % 2 else 40 + i) for i in range(n)], dtype=np.int16)
         if t in ("dict", "hier-dict"):
             root = dclab.new_dataset(dict(spec["features"]))
             root.config["setup"]["software version"] = "verifgen 1.0"
